@@ -1,13 +1,72 @@
-"""C07  Metadata nodes leave no trace in the markup."""
+"""C07  Metadata nodes leave no trace in the markup.
+
+ENTRY POINTS AND ARGUMENTS THAT REACH THE BEHAVIOUR OF THIS PROPERTY (every way a tree that holds
+MetadataNode / HTMLDependency objects becomes text), and the step of this file that drives each one
+with metadata present and absent:
+
+  Tag.get_html_string(indent, eol)                         differential (model) / sized / entry_points
+  TagList.get_html_string(indent, eol, add_ws=)            differential (TagList path) / entry_points /
+                                                           list_ops (positional and keyword forms,
+                                                           add_ws False and True, a tag's own .children)
+  Tag.tagify() / TagList.tagify() then get_html_string     routes_disagree / entry_points / expansions
+  Tag.render()['html'] / TagList.render()['html']          differential / routes / entry_points
+  str() / repr() / _repr_html_()                           routes_disagree / entry_points (both values of
+                                                           htmltools.html_dependency_render_mode)
+  htmltools.html_dependency_render_mode = "json"           entry_points: str() with the serialised
+                                                           dependencies cut out; the same text through
+                                                           HTMLTextDocument(html, deps=, deps_replace_pattern=
+                                                           <a pattern full of regex metacharacters>)
+                                                           .render(lib_prefix=, include_version=)
+  copy.copy / copy.deepcopy of a tree, of an HTMLDocument  entry_points
+  HTMLDocument(x, lang=, class_=, style=, ...)             entry_points: .render(lib_prefix= None / '' /
+     .append(x) / .render() / .save_html()                 nested, include_version=False), .save_html(file,
+                                                           libdir=, include_version=), documents whose
+                                                           content brings its own <html> / <head> / <body>
+  Tag.save_html / TagList.save_html(file, libdir=, include_version=)   entry_points (the file's text)
+  head_content(*trees) and HTMLDependency(head=tree)       entry_points: metadata INSIDE the tree handed
+                                                           to a dependency (its markup goes to <head>, its
+                                                           hash names the head_content dependency)
+  Tag(...), tags.<name>(...), top-level re-exports         api_build: children as nested lists / tuples /
+     (htmltools.div, ...), consolidate_attrs(...),         TagLists (depth up to 70), None items, attribute
+     another tag's .attrs as attribute dict                dicts between children, add_class / add_style
+                                                           (prepend=True) afterwards
+  Tag.insert / append / extend, TagList.insert / append /  routes / batch_inserts / histories (up to 300
+     extend, slice assignment on .children, del / pop      operations on one object) / list_ops
+  TagList.__add__ / __radd__ / __iadd__                    list_ops
+  `with tag:` + sys.displayhook                            routes / components
+  JSX components (htmltools._jsx.jsx_tag_create)           components: metadata among a component's
+                                                           children, inside tags inside it, inside tags given
+                                                           as props; components inside ordinary tags, built
+                                                           inside a with-block
+  objects with tagify() (and also _repr_html_())           expansions
+  one object at two places of a tree                       differential (build(share=True)) / entry_points
+                                                           (the same dependency OBJECT at several places)
+  Tag / TagList / HTMLDocument / HTMLDependency /          fresh_objects (a second object of every class
+     MetadataNode / JSXTag class-level state               built after the first was filled must be empty)
+Not reaching this property (no metadata node can be involved): __eq__ (C08), get_dependencies(dedup=)
+(C11: the dependency LIST is what metadata may affect), TagAttrDict methods (C15..C18).
+
+SIZES: every countable thing (metadata nodes in one child list, visible children, total children,
+distinct dependencies, nesting depth, nesting of list arguments, operations in a history) reaches
+7..9, 15..17, 31..33, 63..65, 127..129, 255..257 and 300 (depth up to 70) in the quick tier, and
+the single text of a tag reaches 300 / 5000 / 70001 characters, with the visible content placed
+beyond the threshold (last position, after the last metadata node, at the bottom of the chain).
+"""
 from __future__ import annotations
 
 import itertools
+import os
+import re
+import shutil
+import tempfile
 
+from .. import common
 from ..common import Ctx, S, unS, differential
 from .. import trees
 from ..trees import build, to_sx, safe_call, res_decode
 
-from htmltools import TagList
+import htmltools
+from htmltools import HTML, HTMLDependency, HTMLDocument, HTMLTextDocument, MetadataNode, Tag, TagList
 
 
 def strip(d):
@@ -40,15 +99,206 @@ def small_trees():
                 yield ("G", pn, pws, [], [leaf[c] for c in combo])
 
 
+# ----------------------------------------------------------------------------------------------
+# sizes: counts just below / at / above the powers of two, depth, long strings
+# ----------------------------------------------------------------------------------------------
+SIZES = [7, 8, 9, 15, 16, 17, 31, 32, 33, 63, 64, 65, 127, 128, 129, 255, 256, 257, 300]
+DEPTHS = [7, 8, 9, 15, 16, 17, 31, 32, 33, 63, 64, 65, 70]
+STRLENS = [300, 5000, 70001]
+LAYOUTS = [(0, "\n"), (0, "\n"), (1, "\n"), (2, "\r\n"), (3, ""), (1, " "), (17, "\n"), (2, "\t\n")]
+
+
+def _meta_run(rng, n, kind, tag=""):
+    """n metadata descriptions: plain nodes, dependencies (distinct names, or one name in many
+    versions), or a mixture"""
+    out = []
+    for i in range(n):
+        k = kind if kind != "mixed" else rng.choice(["plain", "dep", "versions"])
+        if k == "plain":
+            out.append(("M", None))
+        elif k == "dep":
+            out.append(("M", {"name": f"d{tag}{i}", "version": "1.0", "script": {"src": f"d{i}.js"},
+                              "head": rng.choice([None, "<meta name='x'>"])}))
+        else:
+            out.append(("M", {"name": "v" + tag, "version": f"1.{i}", "head": None}))
+    return out
+
+
+def _parent(rng):
+    return rng.choice([("div", True), ("p", True), ("span", False), ("a", False), ("br", False), ("hr", True),
+                       ("img", False), ("input", True), ("script", True), ("style", False), ("my-el", True),
+                       ("li", False), ("title", True), ("textarea", False)])
+
+
+def _long_text(rng, n):
+    s = ""
+    while len(s) < n:
+        s += rng.choice(trees.LONG_BITS)
+    return s[:n - 3] + "<&>"          # the interesting characters sit at the very end
+
+
+VISIBLE_KINDS = ["none", "text", "empty text", "html", "tag", "void tag", "two texts", "repr", "text + tag"]
+
+
+def _visible(rng, vk):
+    if vk == "none":
+        return []
+    if vk == "text":
+        return [("T", rng.choice(["only text", "a < b & c", "x", "0"]))]
+    if vk == "empty text":
+        return [("T", "")]
+    if vk == "html":
+        return [("H", "<i>raw & ready</i>")]
+    if vk == "tag":
+        return [("G", rng.choice(["p", "b"]), rng.random() < 0.5, [], [("T", "in")])]
+    if vk == "void tag":
+        return [("G", "br", rng.random() < 0.5, [], [])]
+    if vk == "two texts":
+        return [("T", "one"), ("T", "t<wo")]
+    if vk == "repr":
+        return [("R", "<u>self</u>")]
+    return [("T", "txt"), ("G", "p", True, [], [])]
+
+
+def _arrange(rng, vis, metas):
+    """place the visible children among the metadata nodes: after all of them (the visible content
+    lies beyond every size threshold), before, in the middle, or spread"""
+    how = rng.choice(["vis last", "vis last", "vis first", "vis middle", "spread"])
+    if how == "vis last":
+        return metas + vis
+    if how == "vis first":
+        return vis + metas
+    if how == "vis middle":
+        h = len(metas) // 2
+        return metas[:h] + vis + metas[h:]
+    out = list(metas)
+    for v in vis:
+        out.insert(rng.randrange(0, len(out) + 1), v)
+    # keep the visible children in their order
+    it = iter(vis)
+    return [next(it) if x[0] != "M" else x for x in out]
+
+
+def sized_cases(rng, quick: bool) -> list:
+    cases = []
+    kinds = ["plain", "dep", "versions", "mixed"]
+    # (a) n metadata nodes around 0..2 visible children (total children n..n+2)
+    for n in SIZES:
+        # quick tier: one of the kinds that decide the short forms (nothing / a single text visible) and two others
+        vks = VISIBLE_KINDS if not quick else \
+            [rng.choice(["none", "text", "empty text", "html"])] + rng.sample(VISIBLE_KINDS, 2)
+        for vk in vks:
+            name, ws = _parent(rng)
+            kids = _arrange(rng, _visible(rng, vk), _meta_run(rng, n, rng.choice(kinds)))
+            cases.append((("G", name, ws, trees.rand_attrs(rng) if rng.random() < 0.3 else [], kids),) + rng.choice(LAYOUTS))
+    # (b) n VISIBLE children with metadata at the seams (0, the powers of two, n-1, n)
+    for n in SIZES:
+        for variant in range(2):
+            name, ws = _parent(rng)
+            mk = rng.choice(["texts", "inline", "block", "mix"])
+            kids = []
+            for i in range(n):
+                k = mk if mk != "mix" else rng.choice(["texts", "inline", "block"])
+                kids.append(("T", f"t{i}<") if k == "texts" else
+                            ("G", "b", False, [], [("T", str(i))]) if k == "inline" else ("G", "p", True, [], []))
+            seams = sorted({p for p in (0, 8, 16, 32, 64, 128, 256, n - 1, n) if p <= n}, reverse=True)
+            for p in (seams if variant == 0 else seams[:2]):
+                kids[p:p] = _meta_run(rng, rng.choice([1, 1, 2]), "mixed", tag=str(p))
+            cases.append((("G", name, ws, [], kids),) + rng.choice(LAYOUTS))
+    # (c) depth: a chain of tags with metadata at every level; the decisive tag (void / empty / single
+    #     text, all with metadata) sits at the bottom
+    for depth in DEPTHS:
+        for variant in range(2):
+            name, ws = _parent(rng)
+            t = ("G", name, ws, [], _arrange(rng, _visible(rng, rng.choice(["none", "text", "html"])),
+                                              _meta_run(rng, rng.choice([1, 2, 17]), "mixed")))
+            for lvl in range(depth):
+                # variant 0: whitespace-enabled tags only (the indent grows with every level); variant 1: mixed
+                n2, w2 = rng.choice([("div", True), ("span", False), ("ul", True), ("em", False), ("section", True)]
+                                    if variant else [("div", True), ("ul", True), ("section", True)])
+                pre = _meta_run(rng, rng.choice([0, 0, 1, 2]), "mixed", tag=f"L{lvl}")
+                post = _meta_run(rng, rng.choice([0, 0, 1]), "plain")
+                t = ("G", n2, w2, [], pre + [t] + post)
+            cases.append((t,) + rng.choice(LAYOUTS[:5]))
+    # (d) long strings: the single text of a tag next to metadata; long strings INSIDE metadata
+    for n in STRLENS:
+        for variant in range(3 if n < 70000 or not quick else 2):
+            name, ws = rng.choice([("div", True), ("span", False), ("script", True), ("style", True), ("pre", False)])
+            txt = (rng.choice("TH"), _long_text(rng, n))
+            metas = _meta_run(rng, rng.choice([1, 3, 17]), "mixed")
+            if variant == 1:
+                metas.append(("M", {"name": "long-" + "n" * min(n, 300), "version": "1.0",
+                                    "head": "<!-- " + "h" * n + " -->"}))
+            cases.append((("G", name, ws, [], _arrange(rng, [txt], metas)),) + rng.choice(LAYOUTS[:4]))
+    return cases
+
+
+WHAT_DOC_ROOT = ("a metadata node given to HTMLDocument as a top-level sibling of the user's own lone <body> / <html> tag "
+                 "changes the document (the user's tag is nested inside a new <body>)")
+WHAT_JSX_ONLY_META = ("inside a JSX component, an element whose children are metadata nodes only loses the one-line form "
+                      "of an empty element in the generated script")
+
+
+@common.known_matcher("F11-doc-root-sibling-metadata")
+def _k11(what, case, detail):
+    return what == WHAT_DOC_ROOT
+
+
+@common.known_matcher("F12-jsx-metadata-only-children")
+def _k12(what, case, detail):
+    return what == WHAT_JSX_ONLY_META
+
+
+def known_shapes(ctx: Ctx) -> None:
+    """The two input classes on which the unchanged library is known to violate the statement (F11,
+    F12 in known_findings.json; both excluded from the generators above): exercised on their
+    smallest instances so that the finding is reported on every run."""
+    from htmltools import HTMLDependency, HTMLDocument, MetadataNode, Tag
+    for root in ("body", "html"):
+        for meta in (MetadataNode(), HTMLDependency("k", "1.0", head="<meta name='k'>")):
+            for first in (True, False):
+                t = Tag(root, Tag("p", "x")) if root == "body" else Tag("html", Tag("body", Tag("p", "x")))
+                items = [meta, t] if first else [t, meta]
+                got = safe_call(lambda: HTMLDocument(*items).render()["html"])
+                want = safe_call(lambda: HTMLDocument(t).render()["html"])
+                ctx.count(("doc-root-sibling", root, type(meta).__name__, first), True, "known shape")
+                # only the dependency's own head lines may be added
+                strip = lambda r: r if r[0] != "ok" else ("ok", "\n".join(  # noqa: E731
+                    ln for ln in r[1].split("\n") if "name=\"k\"" not in ln and "name='k'" not in ln
+                    and "application/html-dependencies" not in ln))
+                if strip(got) != strip(want):
+                    ctx.violation(WHAT_DOC_ROOT, {"root": root, "metadata": type(meta).__name__, "metadata_first": first},
+                                  {"impl_output": got, "expected": want})
+    try:
+        from htmltools._jsx import jsx_tag_create
+    except Exception:
+        return
+    Comp = jsx_tag_create("Comp")
+    for mk in (lambda m: Comp(Tag("span", *m)), lambda m: Comp(*m), lambda m: Comp(p=Tag("i", *m))):
+        got = safe_call(lambda: str(mk([MetadataNode()])))
+        want = safe_call(lambda: str(mk([])))
+        ctx.count(("jsx-only-metadata", got == want), True, "known shape")
+        if got != want:
+            ctx.violation(WHAT_JSX_ONLY_META, {"shape": "Comp(span(MetadataNode())) / Comp(MetadataNode()) / Comp(p=i(MetadataNode()))"},
+                          {"impl_output": got, "expected": want})
+
+
 def run(ctx: Ctx) -> None:
     rng = ctx.rng
     ctx.rule = ("bounded-exhaustive: 5 parents x all child sequences up to length 3 over {text, block, inline, "
                 "void, HTML, repr-object, metadata, block-with-metadata, void-with-metadata} containing metadata; "
                 "plus random trees (depth <= 4) with MetadataNode and HTMLDependency objects at random positions, "
-                "all with indent 0..3 and eol in {LF, CRLF, empty, space}. Non-trivial = contains >= 1 metadata "
-                "node; distinct = canonical (tree, indent, eol).")
+                "all with indent 0..3 and eol in {LF, CRLF, empty, space}; plus sized families (7..300 metadata nodes "
+                "around 0..2 visible children, 7..300 visible children with metadata at the seams, chains of depth "
+                "7..70, single texts of 300 / 5000 / 70001 characters); plus, judged by the metamorphic oracle only "
+                "(markup with the inserted metadata == markup without): histories of up to 300 operations on one "
+                "object, every entry point with non-default arguments (documents, files, json render mode, text "
+                "documents, copies), construction through the public API, TagList operators, JSX components and "
+                "with-blocks. Non-trivial = contains >= 1 metadata node; distinct = canonical (tree, indent, eol) "
+                "resp. canonical scenario.")
     ctx.assumptions = ["the extracted OCaml model behaves as the Gallina model"]
     ctx.proof()
+    known_shapes(ctx)
 
     cases = []
     for d in small_trees():
@@ -58,6 +308,9 @@ def run(ctx: Ctx) -> None:
     for _ in range(ctx.budget(2500, 40000)):
         d = trees.rand_tree(rng, rng.choice([1, 2, 2, 3, 4]), leaves="THRMMMD", names="bbivsck")
         cases.append((d, rng.randrange(0, 4), rng.choice(["\n", "\r\n", "", " "])))
+    if ctx.replay is None:
+        for rep in range(ctx.budget(1, 3)):
+            cases.extend(sized_cases(rng, ctx.quick))
 
     def impl(c):
         d, i, eol = c
@@ -68,7 +321,8 @@ def run(ctx: Ctx) -> None:
         t = build(d)
         m = trees.routes_disagree(build(d, share=True))
         if m:
-            return "with metadata nodes present, the ways of obtaining the markup disagree: " + m
+            return ("with metadata nodes present, the ways of obtaining the markup disagree: " + m.split(" gives ")[0] +
+                    " differs from tagify().get_html_string()")
         want = safe_call(lambda: build(strip(d)).get_html_string(i, eol))
         if out != want:
             return "rendering changes when the metadata nodes are removed"
@@ -86,15 +340,25 @@ def run(ctx: Ctx) -> None:
                 return "TagList rendering changes when the metadata nodes are removed"
         return None
 
+    def kind(c):
+        n = count_meta(c[0])
+        return f"{min(n, 4)}{'+' if n > 4 else ''} metadata nodes" if n < 7 else \
+            f"{'7..33' if n <= 33 else '34..129' if n <= 129 else '130+'} metadata nodes"
+
     differential(
         ctx, "Tag.get_html_string (trees with metadata)", cases,
         to_sx=lambda c: [2, to_sx(c[0]), c[1], S(c[2])],
         impl=impl, decode=lambda m: res_decode(m, unS), oracle=oracle,
-        nontrivial=lambda c: count_meta(c[0]) > 0,
-        kind=lambda c: f"{min(count_meta(c[0]), 4)}{'+' if count_meta(c[0]) > 4 else ''} metadata nodes")
+        nontrivial=lambda c: count_meta(c[0]) > 0, kind=kind)
     routes(ctx)
     expansions(ctx)
     batch_inserts(ctx)
+    fresh_objects(ctx)
+    histories(ctx)
+    entry_points(ctx)
+    api_build(ctx)
+    list_ops(ctx)
+    components(ctx)
 
 
 def build_routes(d, rng, plain_only=False):
@@ -103,7 +367,6 @@ def build_routes(d, rng, plain_only=False):
     the expansion of a tagifiable object (made visible by tagify()), or being displayed inside
     the parent's `with` block.  Returns (live tree, needs_tagify)."""
     import sys
-    from htmltools import HTMLDependency, MetadataNode, Tag
     if d[0] != "G":
         return trees.build(d), False
     _, name, ws, attrs, kids = d
@@ -146,23 +409,24 @@ def build_routes(d, rng, plain_only=False):
     return t, needs
 
 
-def with_tag_display(t, value):
-    """display `value` inside `with t:` (the tag is handed to a throw-away outer hook)"""
+def with_tag_display(t, *values):
+    """display `values` inside `with t:` (the tag is handed to a throw-away outer hook)"""
     import sys
     sys.displayhook = lambda v: None
     with t:
-        sys.displayhook(value)
+        for value in values:
+            sys.displayhook(value)
     t.prev_displayhook = None
 
 
 def routes(ctx: Ctx) -> None:
+    import copy
     rng = ctx.rng
     for _ in range(ctx.budget(1500, 20000)):
         d = trees.rand_tree(rng, rng.choice([1, 2, 3]), leaves="THMMMD", names="bbivsck")
         if count_meta(d) == 0:
             continue
         ctx.count(("routes", d), True, "metadata entering by insert/append/extend/slice/expansion/with")
-        st = trees.rng_save(rng)
         r = safe_call(lambda: build_routes(d, rng))
         if r[0] != "ok":
             ctx.violation("adding a metadata node through the public API raised", d, {"impl_output": r})
@@ -181,6 +445,14 @@ def routes(ctx: Ctx) -> None:
         n_dep = repr(d).count("'name':")
         if deps[0] == "ok" and n_dep and not deps[1]["dependencies"]:
             ctx.violation("dependencies added after construction are not reported", d, {})
+        # a tag that was filled through these routes (a `with` block among them) and is then copied
+        for cname, cp in (("copy.copy", copy.copy), ("copy.deepcopy", copy.deepcopy)):
+            g2 = safe_call(lambda: cp(t).tagify().get_html_string())
+            if g2 != want:
+                ctx.violation(f"{cname} of a tag filled through insert / append / extend / slice assignment / a with-block "
+                              "renders differently from the tree without the metadata nodes", d,
+                              {"impl_output": g2, "expected": want})
+                break
 
 
 def strip_deep(d):
@@ -231,7 +503,6 @@ def _walk(d):
 def batch_inserts(ctx: Ctx) -> None:
     """insert(i, [..batch with metadata nodes..]) at every index incl. negative and out of range:
     the rendering must be that of the same insert without the metadata nodes"""
-    from htmltools import HTMLDependency, MetadataNode, Tag, TagList
     rng = ctx.rng
     for _ in range(ctx.budget(400, 6000)):
         n = rng.choice([0, 1, 2, 3])
@@ -258,6 +529,946 @@ def batch_inserts(ctx: Ctx) -> None:
                               {"n_existing": n, "index": i, "receiver": recv,
                                "batch": [type(x).__name__ if not isinstance(x, str) else x for x in batch]},
                               {"impl_output": g, "expected": w})
+
+
+# ==============================================================================================
+# Everything below judges by the property's own (metamorphic) oracle: the markup obtained with
+# the inserted metadata nodes must be the markup obtained without them.
+# ==============================================================================================
+class MetaSub(MetadataNode):
+    """a user subclass of the public MetadataNode class, carrying data"""
+
+    def __init__(self, note: str = "note"):
+        self.note = note
+
+
+class DepSub(HTMLDependency):
+    """a user subclass of HTMLDependency"""
+
+
+MARK = "zzins"      # every dependency INSERTED by a scenario carries this in its name and in each file name
+
+
+class dep_mode:
+    """with dep_mode('json'): ... -- htmltools.html_dependency_render_mode for the duration"""
+
+    def __init__(self, mode: str):
+        self.mode = mode
+
+    def __enter__(self):
+        self.old = htmltools.html_dependency_render_mode
+        htmltools.html_dependency_render_mode = self.mode
+
+    def __exit__(self, *exc):
+        htmltools.html_dependency_render_mode = self.old
+        return False
+
+
+def _is(p, tag: str) -> bool:
+    return isinstance(p, (list, tuple)) and len(p) > 0 and p[0] == tag
+
+
+def inserted(p) -> bool:
+    """is the metadata payload p one that the scenario INSERTS (as opposed to a dependency that
+    belongs to the tree on both sides of the comparison)?"""
+    if p is None or _is(p, "sub") or _is(p, "dup"):
+        return True
+    if isinstance(p, dict):
+        return str(p.get("name", "")).startswith(MARK)
+    return False
+
+
+def strip_ins(d):
+    """the tree without the inserted metadata nodes; the trees handed to kept dependencies
+    (head_content(...), HTMLDependency(head=...)) are stripped of theirs as well"""
+    k = d[0]
+    if k == "G":
+        return ("G", d[1], d[2], d[3], [strip_ins(x) for x in d[4] if not (x[0] == "M" and inserted(x[1]))])
+    if k == "J":
+        return ("J", d[1], [(key, strip_ins(v) if isinstance(v, (list, tuple)) and v and v[0] in ("G", "J") else v)
+                            for key, v in d[2]],
+                [strip_ins(x) for x in d[3] if not (x[0] == "M" and inserted(x[1]))])
+    if k == "M" and _is(d[1], "hc"):
+        return ("M", ("hc", [strip_ins(x) for x in d[1][1] if not (x[0] == "M" and inserted(x[1]))]))
+    if k == "M" and _is(d[1], "dephead"):
+        return ("M", ("dephead", d[1][1], strip_ins(d[1][2])))
+    return d
+
+
+def strip_all(d):
+    """the tree without any metadata node"""
+    k = d[0]
+    if k == "G":
+        return ("G", d[1], d[2], d[3], [strip_all(x) for x in d[4] if x[0] != "M"])
+    if k == "J":
+        return ("J", d[1], [(key, strip_all(v) if isinstance(v, (list, tuple)) and v and v[0] in ("G", "J") else v)
+                            for key, v in d[2]], [strip_all(x) for x in d[3] if x[0] != "M"])
+    return d
+
+
+def build7(d, memo: dict | None = None):
+    """live objects of a description that may hold the metadata payloads of this file:
+    None -> MetadataNode(); ('sub',) -> MetaSub(); dict -> HTMLDependency(**dict) (key '_cls': 'sub'
+    -> DepSub); ('dup', dict) -> an equal, separately built dependency; ('hc', [descs]) ->
+    head_content(*trees); ('dephead', dict, desc) -> HTMLDependency(**dict, head=tree);
+    ('J', name, props, kids) -> a JSX component.  With a memo, equal dependency payloads give the
+    SAME object (one object at several places)."""
+    k = d[0]
+    if k == "M":
+        p = d[1]
+        if p is None:
+            return MetadataNode()
+        if _is(p, "sub"):
+            return MetaSub()
+        if _is(p, "hc"):
+            return htmltools.head_content(*[build7(x, memo) for x in p[1]])
+        if _is(p, "dephead"):
+            return HTMLDependency(**dict(p[1]), head=build7(p[2], memo))
+        if _is(p, "dup"):
+            p = p[1]
+        key = repr(p)
+        if memo is not None and key in memo:
+            return memo[key]
+        kw = {a: (dict(b) if isinstance(b, dict) else [dict(x) for x in b] if isinstance(b, list) else b)
+              for a, b in p.items() if a not in ("_cls", "_headtag")}
+        if p.get("_headtag"):
+            kw["head"] = Tag("meta", name=p["_headtag"])
+        o = (DepSub if p.get("_cls") == "sub" else HTMLDependency)(**kw)
+        if memo is not None:
+            memo[key] = o
+        return o
+    if k == "G":
+        _, name, ws, attrs, kids = d
+        o = Tag(name, *[trees.mk_child_text(x[1]) if x[0] == "T" else build7(x, memo) for x in kids], _add_ws=ws)
+        for key, mv in attrs:
+            m, v = mv
+            dict.__setitem__(o.attrs, key, trees.mk_html(v) if m == "H" else trees.mk_text(v))
+        return o
+    if k == "J":
+        from htmltools._jsx import jsx_tag_create
+        _, name, props, kids = d
+        pr = {key: (build7(v, memo) if isinstance(v, (list, tuple)) and v and v[0] in ("G", "J") else v) for key, v in props}
+        return jsx_tag_create(name)(*[x[1] if x[0] == "T" else build7(x, memo) for x in kids], **pr)
+    return trees.build(d)
+
+
+def ins_payload(rng, i: int) -> dict:
+    """an inserted dependency: a unique name, and every line it can contribute to a document's
+    <head> carries the marker (each of its elements is a tag on a line of its own)"""
+    nm = f"{MARK}{i}"
+    p: dict = {"name": nm, "version": rng.choice(["1.0", "2.1.3", "0.0.1"])}
+    if rng.random() < 0.6:
+        p["source"] = {"href": f"https://x.test/{nm}"}
+    if rng.random() < 0.7:
+        p["script"] = rng.choice([{"src": f"{nm}.js"}, [{"src": f"{nm}-a.js"}, {"src": f"{nm} b.js", "defer": ""}]])
+    if rng.random() < 0.4:
+        p["stylesheet"] = {"href": f"{nm}.css"}
+    if rng.random() < 0.3:
+        p["meta"] = {"name": nm, "content": "c<&>"}
+    if rng.random() < 0.3:
+        p["_headtag"] = nm
+    if rng.random() < 0.15:
+        p["_cls"] = "sub"
+    return p
+
+
+def relabel(d, rng, st: dict, inner: bool = False):
+    """give every metadata position of a generated tree a payload: inserted ones (plain node, user
+    subclass, uniquely named dependency, duplicate of a kept dependency) and KEPT ones (a simple
+    dependency, head_content(tree), HTMLDependency(head=tree)); inside the tree of a kept
+    dependency only inserted ones."""
+    if d[0] == "G":
+        return ("G", d[1], d[2], d[3], [relabel(x, rng, st, inner) for x in d[4]])
+    if d[0] != "M":
+        return d
+    r = rng.random()
+    if r < 0.22:
+        return ("M", None)
+    if r < 0.30:
+        return ("M", ("sub",))
+    if r < 0.62 or inner:
+        st["n"] += 1
+        return ("M", ins_payload(rng, st["n"]))
+    if r < 0.70 and st["kept"]:
+        return ("M", ("dup", rng.choice(st["kept"])))
+    if r < 0.82:
+        p = {"name": "kept-" + rng.choice("abc"), "version": rng.choice(["1.0", "1.10", "2"]),
+             "script": {"src": "k.js"}, "source": {"href": "https://k.test/"}}
+        st["kept"].append(p)
+        return ("M", p)
+    if r < 0.92:
+        return ("M", ("hc", [head_tree(rng, st) for _ in range(rng.choice([1, 1, 2]))]))
+    st["k"] += 1
+    return ("M", ("dephead", {"name": f"kept-head{st['k']}", "version": "3.0"}, head_tree(rng, st)))
+
+
+def head_tree(rng, st: dict):
+    """a tree as it is handed to head_content() / HTMLDependency(head=): a whitespace-enabled tag
+    (title / meta / style / script / link / anything) with inserted metadata somewhere inside"""
+    name = rng.choice(["title", "meta", "style", "script", "link", "base", "noscript"])
+    kids = [trees.rand_child(rng, 1, leaves="TTHMMD", names="bv", maxkids=2) for _ in range(rng.choice([0, 1, 2, 3]))]
+    if rng.random() < 0.08:
+        kids = kids[:1] + [("M", None)] * rng.choice([15, 16, 17, 33])
+    if not any(k[0] == "M" for k in kids) or rng.random() < 0.3:
+        kids.insert(rng.randrange(0, len(kids) + 1), ("M", {"name": "x"}))
+    return relabel(("G", name, True, trees.rand_attrs(rng, html_ok=False) if rng.random() < 0.3 else [], kids),
+                   rng, st, inner=True)
+
+
+_JSON_DEP = re.compile(r'<script type="application/json" data-html-dependency="">((?:.|\r|\n)*?)</script>')
+_DEPLIST = re.compile(r'(<script type="application/html-dependencies">)(.*?)(</script>)')
+
+
+def unjson(s: str):
+    """what str() gives in json dependency mode -> (the text without the serialised dependencies,
+    those serialised dependencies)"""
+    return _JSON_DEP.sub("", s), _JSON_DEP.findall(s)
+
+
+def json_same(with_text: str, markup: str) -> bool:
+    """after cutting the serialised dependencies out of the json-mode text, the markup is left (the
+    line feeds that separated the serialised dependencies are their own layout -- C13 -- and stay)"""
+    body, _ = unjson(with_text)
+    return body.startswith(markup) and body[len(markup):].strip("\n") == ""
+
+
+def subtract_inserted(html: str) -> str:
+    """a document's text without what the INSERTED dependencies may contribute to it: their entries
+    in the dependency listing of <head> and their own <meta>/<link>/<script> lines (all marked)"""
+    def fix(m):
+        items = [it for it in m.group(2).split(";") if not it.startswith(MARK)]
+        return m.group(1) + ";".join(items) + m.group(3) if items else "\0drop\0"
+    html = _DEPLIST.sub(fix, html, count=1)
+    return "\n".join(ln for ln in html.split("\n") if MARK not in ln and "\0drop\0" not in ln)
+
+
+def dep_names(deps) -> list:
+    return [(d.name, str(d.version)) for d in deps]
+
+
+def doc_judge(h1, n1, h2, n2):
+    """h1 / n1: text and reported (name, version) list of the document built from the tree WITH the
+    inserted metadata; h2 / n2: without.  The inserted nodes may add their own entries to the list
+    (and what those entries stand for to <head>); everything else must be identical."""
+    k1 = [x for x in n1 if not x[0].startswith(MARK)]
+    if sorted(k1) != sorted(n2):
+        return "inserting metadata nodes changed OTHER entries of the document's dependency list (their names / versions)"
+    if k1 != n2:
+        return None         # a duplicate placed earlier may legitimately change the ORDER of the list
+    if subtract_inserted(h1) != h2:
+        return "the document's markup differs (beyond the inserted dependencies' own <head> lines)"
+    return None
+
+
+def snap(x):
+    """identity structure of a live tree (only ever compared with a later snapshot of the SAME objects)"""
+    if isinstance(x, Tag):
+        return (id(x), x.name, x.add_ws, tuple((k, str(v), type(v).__name__) for k, v in x.attrs.items()),
+                tuple(snap(c) for c in x.children))
+    if isinstance(x, TagList):
+        return tuple(snap(c) for c in x)
+    if isinstance(x, HTMLDependency):
+        return (id(x), x.name, str(x.version), repr(x.source), repr(x.script), repr(x.stylesheet), repr(x.meta),
+                snap(x.head) if x.head is not None else None)
+    if isinstance(x, (str, HTML)):
+        return (id(x), str(x))
+    return (id(x), type(x).__name__)
+
+
+PAT = '<meta name="deps (.*?) [here]+ $1 \\1 ^|{2}" content="\\g<0>">'     # regex / template metacharacters
+SEAM = "<!--seam-8d1f-->"
+
+
+def frag_routes(x, i, eol, aw):
+    """(name, thunk, kind): every way to the markup of a fragment.  kind 'layout': honours indent / eol
+    (/ add_ws); 'default': default layout; 'str': default layout through str(), which in json mode
+    appends the serialised dependencies."""
+    import copy
+    rs = [("get_html_string(i, eol)", lambda: x.get_html_string(i, eol), "layout"),
+          ("get_html_string(indent=i, eol=eol)", lambda: x.get_html_string(indent=i, eol=eol), "layout"),
+          ("tagify().get_html_string(i, eol)", lambda: x.tagify().get_html_string(i, eol), "layout"),
+          ("copy.copy(x).get_html_string(i, eol)", lambda: copy.copy(x).get_html_string(i, eol), "layout"),
+          ("copy.deepcopy(x).get_html_string(i, eol)", lambda: copy.deepcopy(x).get_html_string(i, eol), "layout"),
+          ("TagList(x).get_html_string(i, eol, add_ws=aw)", lambda: TagList(x).get_html_string(i, eol, add_ws=aw), "list"),
+          ("TagList('lead', x, x).get_html_string(indent=i, eol=eol, add_ws=aw)",
+           lambda: TagList("lead", x, x).get_html_string(indent=i, eol=eol, add_ws=aw), "list"),
+          ("render()['html']", lambda: x.render()["html"], "default"),
+          ("copy.copy(x).render()['html']", lambda: copy.copy(x).render()["html"], "default"),
+          ("str()", lambda: str(x), "str"), ("repr()", lambda: repr(x), "str"),
+          ("_repr_html_()", lambda: x._repr_html_(), "str"),
+          ("str(TagList(x))", lambda: str(TagList(x)), "str"),
+          ("str(copy.deepcopy(x))", lambda: str(copy.deepcopy(x)), "str")]
+    if isinstance(x, Tag):
+        rs.append(("children.get_html_string(indent=i, eol=eol, add_ws=aw)",
+                   lambda: x.children.get_html_string(indent=i, eol=eol, add_ws=aw), "list"))
+        rs.append(("TagList(*children).get_html_string(i, eol, add_ws=aw)",
+                   lambda: TagList(*x.children).get_html_string(i, eol, add_ws=aw), "list"))
+    return rs
+
+
+def compare_frag(x1, x2, i, eol, aw, json_mode: bool, without_first: bool = False):
+    """x1: the live tree with metadata, x2: without.  First route on which the markup differs, or None.
+    (without_first: each route is taken on the tree without metadata first -- shared state may flow
+    either way)"""
+    for (n, f1, kind), (_, f2, _) in zip(frag_routes(x1, i, eol, aw), frag_routes(x2, i, eol, aw)):
+        if without_first:
+            want = safe_call(f2)
+            got = safe_call(f1)
+        else:
+            got = safe_call(f1)
+            want = safe_call(f2)
+        if kind == "str" and json_mode and got[0] == "ok" and want[0] == "ok":
+            w_body, w_deps = unjson(want[1])
+            if not json_same(got[1], w_body):
+                return n + " in json dependency mode (serialised dependencies cut out)", got, ("ok", w_body)
+            continue
+        if got != want:
+            return n, got, want
+    return None
+
+
+def doc_routes(w, kw, lp, iv, tmpdir, tag):
+    """(name, thunk -> text): every way from a tree to a complete document; plus the reported list"""
+    import copy
+
+    def read(path):
+        with open(path, encoding="utf-8", newline="") as f:
+            return f.read()
+
+    def appended():
+        doc = HTMLDocument(**kw)
+        doc.append(w)
+        return doc.render(lib_prefix=lp, include_version=iv)["html"]
+
+    def appended2():
+        doc = HTMLDocument("lead text", **kw)
+        doc.append(None, [w])
+        return doc.render(lib_prefix=lp, include_version=iv)["html"]
+
+    f1, f2 = os.path.join(tmpdir, f"{tag}-a.html"), os.path.join(tmpdir, f"{tag}-b.html")
+    return [
+        ("HTMLDocument(x, **attrs).render(lib_prefix=, include_version=)['html']",
+         lambda: HTMLDocument(w, **kw).render(lib_prefix=lp, include_version=iv)["html"]),
+        ("HTMLDocument(**attrs).append(x) then render", appended),
+        ("HTMLDocument('lead text').append(None, [x]) then render", appended2),
+        ("copy.copy(HTMLDocument(x)).render", lambda: copy.copy(HTMLDocument(w, **kw)).render(lib_prefix=lp, include_version=iv)["html"]),
+        ("x.save_html(file, libdir=, include_version=)", lambda: read(w.save_html(f1, libdir=lp, include_version=iv))),
+        ("HTMLDocument(x, **attrs).save_html(file, libdir=, include_version=)",
+         lambda: read(HTMLDocument(w, **kw).save_html(f2, lp, iv))),
+    ]
+
+
+def wrap(form: str, x, extra):
+    """the content of the document: the tree alone, or inside the user's own <body> / <html> (with or
+    without a <head>); `extra` are metadata nodes for the user's own <head> / <html>.
+    NOT GENERATED (reported as a deviation of the unchanged library): a metadata node as a top-level
+    SIBLING of the user's own lone <html> / <body> tag -- HTMLDocument(dep, Tag('body', ..)) -- which
+    HTMLDocument no longer recognises as the document's body (len(content) == 1 test on the unfiltered
+    list) and wraps in a second <body>."""
+    if form == "bare":
+        return x
+    if form == "list":
+        return TagList(*extra, x, "tail text")
+    if form == "body":
+        return Tag("body", x, *extra, class_="b")
+    if form == "html":
+        return Tag("html", *extra[:1], Tag("head", Tag("title", "T<"), *extra), Tag("body", x))
+    if form == "html-nohead":
+        return Tag("html", *extra, Tag("body", x), lang="x")
+    raise ValueError(form)
+
+
+def ep_case(rng) -> dict:
+    st = {"n": 0, "k": 0, "kept": []}
+    r = rng.random()
+    depth = rng.choice([1, 2, 2, 3])
+    d = trees.rand_tree(rng, depth, leaves="THRMMMD", names="bbivsck")
+    if r < 0.3 or count_meta(d) == 0:
+        kids = list(d[4])
+        for _ in range(rng.choice([1, 2])):
+            kids.insert(rng.randrange(0, len(kids) + 1), ("M", {"name": "x"}))
+        d = ("G", d[1], d[2], d[3], kids)
+    d = relabel(d, rng, st)
+    if r > 0.55:
+        # make sure dependencies that carry trees are met often: a head_content() / head= tree at the top level
+        kids = list(d[4])
+        kind = rng.choice(["hc", "hc", "dephead"])
+        p = ("hc", [head_tree(rng, st) for _ in range(rng.choice([1, 2]))]) if kind == "hc" else \
+            ("dephead", {"name": "kept-headX", "version": "3.0"}, head_tree(rng, st))
+        kids.insert(rng.randrange(0, len(kids) + 1), ("M", p))
+        d = ("G", d[1], d[2], d[3], kids)
+    n_extra = rng.choice([0, 0, 1, 2])
+    extra = []
+    for _ in range(n_extra):
+        st["n"] += 1
+        extra.append(rng.choice([None, ("sub",), ins_payload(rng, st["n"])]))
+    kw = {k: v for k, v in [("lang", "en"), ("class_", "doc c2"), ("style", "margin:0"), ("data_k", "v<&>")]
+          if rng.random() < 0.4}
+    return {"tree": d, "mode": rng.choice(["invisible", "json"]), "indent": rng.choice([0, 1, 2, 3, 17]),
+            "eol": rng.choice(["\n", "\r\n", "", " ", "\t\n"]), "add_ws": rng.random() < 0.5,
+            "lib_prefix": rng.choice(["lib", None, "", "a/b c", "../up"]), "include_version": rng.random() < 0.5,
+            "attrs": kw, "form": rng.choice(["bare", "bare", "list", "body", "html", "html-nohead"]),
+            "extra": extra, "share": rng.random() < 0.3, "first": rng.choice(["with", "without"])}
+
+
+def ep_judge(ctx: Ctx, c: dict, tmpdir: str, tag: str) -> None:
+    d = c["tree"]
+    i, eol, aw, lp, iv = c["indent"], c["eol"], c["add_ws"], c["lib_prefix"], c["include_version"]
+    json_mode = c["mode"] == "json"
+
+    def report(what, detail):
+        ctx.violation("entry points: " + what, c, detail)
+
+    with dep_mode(c["mode"]):
+        # ---- fragments: no metadata node at all on the other side
+        def mk(desc):
+            return safe_call(lambda: build7(desc, {} if c["share"] else None))
+        ds_all = strip_all(d)
+        if c["first"] == "with":
+            b1 = mk(d)
+            b2 = mk(ds_all)
+        else:
+            b2 = mk(ds_all)
+            b1 = mk(d)
+        if b1[0] != "ok" or b2[0] != "ok":
+            if b1[0] != b2[0]:
+                report("building the tree fails only with / only without the metadata nodes", {"impl_output": b1, "expected": b2})
+            return
+        x1, x2 = b1[1], b2[1]
+        before = snap(x1)
+        deps_before = safe_call(lambda: dep_names(x1.get_dependencies()))
+        m = compare_frag(x1, x2, i, eol, aw, json_mode, c["first"] == "without")
+        if m:
+            report("the markup of the tree changes when metadata nodes are present, through " + m[0],
+                   {"route": m[0], "impl_output": m[1], "expected": m[2]})
+            return
+        # ---- json mode: the text through an HTMLTextDocument (serialised dependencies are taken out again)
+        if json_mode:
+            markup = safe_call(lambda: x2.get_html_string())
+            extra_dep = [HTMLDependency(MARK + "T", "1.0", script={"src": MARK + "T.js"})] if c["add_ws"] else None
+
+            def text_doc():
+                s = str(x1)
+                doc = HTMLTextDocument("<html><head>" + PAT + "</head><body>" + SEAM + s + SEAM + "</body></html>",
+                                       deps=extra_dep, deps_replace_pattern=PAT)
+                return doc.render(lib_prefix=lp, include_version=iv)["html"]
+            r = safe_call(text_doc)
+            ok = r[0] == "ok" and markup[0] == "ok" and r[1].count(SEAM) == 2 and \
+                json_same(r[1].split(SEAM)[1], markup[1]) and PAT not in r[1]
+            if markup[0] == "ok" and not ok:
+                report("json dependency mode: str(x) placed in an HTMLTextDocument does not give back the markup of the "
+                       "tree without metadata nodes between the seams", {"impl_output": r, "expected": markup})
+                return
+        # ---- documents: only the INSERTED nodes are absent on the other side
+        extra1 = [build7(("M", p)) for p in c["extra"]]
+        ds = strip_ins(d)
+        y1 = safe_call(lambda: wrap(c["form"], build7(d, {} if c["share"] else None), extra1))
+        y2 = safe_call(lambda: wrap(c["form"], build7(ds, {} if c["share"] else None), []))
+        if y1[0] != "ok" or y2[0] != "ok":
+            if y1[0] != y2[0]:
+                report("building the document content fails only with / only without the inserted metadata nodes",
+                       {"impl_output": y1, "expected": y2})
+            return
+        w1, w2 = y1[1], y2[1]
+        n1 = safe_call(lambda: dep_names(HTMLDocument(w1).render(lib_prefix=lp, include_version=iv)["dependencies"]))
+        n2 = safe_call(lambda: dep_names(HTMLDocument(w2).render(lib_prefix=lp, include_version=iv)["dependencies"]))
+        before_w = snap(w1)
+        for (n, f1), (_, f2) in zip(doc_routes(w1, c["attrs"], lp, iv, tmpdir, tag + "w"),
+                                    doc_routes(w2, c["attrs"], lp, iv, tmpdir, tag + "o")):
+            h1, h2 = safe_call(f1), safe_call(f2)
+            if h1[0] != "ok" or h2[0] != "ok" or n1[0] != "ok" or n2[0] != "ok":
+                if h1[0] != h2[0] or (h1[0] != "ok" and h1 != h2):
+                    report("a document route fails only with / only without the inserted metadata nodes: " + n,
+                           {"route": n, "impl_output": h1, "expected": h2})
+                    return
+                continue
+            msg = doc_judge(h1[1], n1[1], h2[1], n2[1])
+            if msg:
+                report("inserting metadata nodes into the tree (or into a tree handed to head_content() / "
+                       "HTMLDependency(head=)) leaves a trace in the document: " + msg,
+                       {"route": n, "impl_output": h1[1], "expected": h2[1], "reported_with": n1[1], "reported_without": n2[1]})
+                return
+        # ---- json mode: what str() serialises for the dependencies that are there on both sides (their head=
+        #      trees are written into it as markup) must not depend on the inserted nodes
+        if json_mode:
+            import json as _json
+
+            def kept_scripts(w):
+                out = []
+                for t in unjson(str(w))[1]:
+                    if not str(_json.loads(t).get("name", "")).startswith(MARK):
+                        out.append(t)
+                return sorted(out)
+            k1, k2 = safe_call(lambda: kept_scripts(w1)), safe_call(lambda: kept_scripts(w2))
+            if k1 != k2:
+                report("json dependency mode: the serialised form of the OTHER dependencies (names, head= markup) changes when "
+                       "metadata nodes are inserted into the tree or into the trees those dependencies carry",
+                       {"impl_output": k1, "expected": k2})
+                return
+        # ---- read-only calls leave the caller's objects alone (the metadata nodes stay where they are)
+        if snap(x1) != before or snap(w1) != before_w:
+            report("a rendering call changed the caller's tree", {})
+            return
+        deps_after = safe_call(lambda: dep_names(x1.get_dependencies()))
+        if deps_after != deps_before:
+            report("after rendering, the tree reports other dependencies than before",
+                   {"impl_output": deps_after, "expected": deps_before})
+
+
+def entry_points(ctx: Ctx) -> None:
+    """every entry point, non-default arguments, both dependency render modes; dependencies that
+    carry trees of their own; documents with their own <html>/<head>/<body>"""
+    rng = ctx.rng
+    tmpdir = tempfile.mkdtemp(prefix="c07-")
+    try:
+        rec = _recorded(ctx, "entry points:")
+        if rec is not None:
+            ctx.count(("entry", "replayed"), True, "replayed entry-point scenario")
+            ep_judge(ctx, rec, tmpdir, "r")
+            return
+        for n in range(ctx.budget(260, 6000)):
+            c = ep_case(rng)
+            ctx.count(("entry", c), True, f"entry points, {c['mode']} mode, content form {c['form']}")
+            ep_judge(ctx, c, tmpdir, "c")
+    finally:
+        htmltools.html_dependency_render_mode = "invisible"
+        shutil.rmtree(tmpdir, ignore_errors=True)
+
+
+def _recorded(ctx: Ctx, prefix: str):
+    """--replay: the recorded scenario if this step reported it"""
+    if ctx.replay is None:
+        return None
+    what = str(ctx.replay.get("what") or "")
+    if what.startswith(prefix) and isinstance(ctx.replay.get("case"), dict):
+        return ctx.replay["case"]
+    return None
+
+
+# ----------------------------------------------------------------------------------------------
+def fresh_objects(ctx: Ctx) -> None:
+    """class-level state: after an object of a class was filled (metadata and visible children), a
+    second, empty object of the same class gives what an empty object gave before"""
+    from htmltools._jsx import jsx_tag_create
+    Comp = jsx_tag_create("Comp")
+    makers = {
+        "Tag": lambda: Tag("div"), "tags.br": lambda: htmltools.tags.br(), "TagList": lambda: TagList(),
+        "HTMLDocument": lambda: HTMLDocument(), "JSX component": lambda: Comp(),
+        "head_content": lambda: Tag("div", htmltools.head_content()),
+        "HTMLDependency": lambda: Tag("div", HTMLDependency("e", "1.0")),
+    }
+
+    def observe(o):
+        if isinstance(o, HTMLDocument):
+            r = o.render()
+            return (r["html"], dep_names(r["dependencies"]))
+        if not isinstance(o, (Tag, TagList)):
+            o = TagList(o)
+        r = o.render()
+        return (r["html"], str(o), o.tagify().get_html_string(), dep_names(r["dependencies"]))
+
+    for name, mk in makers.items():
+        ctx.count(("fresh", name), True, "second object of a class after the first was filled")
+        base = safe_call(lambda: observe(mk()))
+        first = mk()
+
+        def fill():
+            stuff = [HTMLDependency("filled", "9.9", head="<meta name='filled'>"), "visible-of-first", MetadataNode(),
+                     Tag("p", "first")] + [MetadataNode() for _ in range(40)]
+            first.append(*stuff)
+            return observe(first)
+        filled = safe_call(fill)
+        second = safe_call(lambda: observe(mk()))
+        if second != base:
+            ctx.violation("fresh objects: an empty object built after another object of its class was filled with metadata "
+                          "and visible children differs from an empty object built before", {"class": name},
+                          {"impl_output": second, "expected": base, "first_object": filled})
+
+
+def histories(ctx: Ctx) -> None:
+    """up to 300 operations that add / remove ONLY metadata nodes on one object whose visible
+    children never change: after every operation the markup is what it was before the first"""
+    rng = ctx.rng
+    lens = [20, 40, 70, 140, 300]
+    for run_no in range(ctx.budget(14, 150)):
+        n_ops = lens[run_no % len(lens)]
+        vk = rng.choice(VISIBLE_KINDS)
+        vis = _visible(rng, vk)
+        name, ws = _parent(rng)
+        recv = rng.choice(["tag", "tag", "list"])
+        i, eol = rng.choice(LAYOUTS[:6])
+        case = {"receiver": recv, "name": name, "add_ws": ws, "visible": vis, "indent": i, "eol": eol, "ops": []}
+        ctx.count(("history", run_no, n_ops, vk, name, recv), True, f"history of {n_ops} metadata-only operations")
+
+        def mk():
+            live = [trees.mk_child_text(v[1]) if v[0] == "T" else build(v) for v in vis]
+            return Tag(name, *live, _add_ws=ws) if recv == "tag" else TagList(*live)
+        want = safe_call(lambda: mk().get_html_string(i, eol))
+        want_r = safe_call(lambda: mk().render()["html"])
+        t = mk()
+        kids = t.children if recv == "tag" else t
+        bad = None
+        for step in range(n_ops):
+            n_meta = sum(isinstance(x, MetadataNode) for x in kids)
+            op = rng.choice(["append", "insert", "insert", "insert-neg", "extend", "slice", "iadd", "remove", "front"])
+            if op == "remove" and (n_meta == 0 or step > n_ops * 0.8):
+                op = "append"
+            m = rng.choice([MetadataNode, MetaSub, lambda: HTMLDependency(f"h{step}", "1.0", head="<meta name='h'>"),
+                            lambda: HTMLDependency("same", f"1.{step}", script={"src": "s.js"})])()
+            pos = rng.randrange(0, len(kids) + 1)
+            case["ops"].append((op, pos, type(m).__name__))
+
+            def apply():
+                if op == "append":
+                    t.append(m)
+                elif op == "front":
+                    t.insert(0, m)
+                elif op == "insert":
+                    t.insert(pos, m)
+                elif op == "insert-neg":
+                    # a negative index addresses the same gap as len + index (index -len-1 and below: the front)
+                    if pos == len(kids):
+                        t.append(m)
+                    else:
+                        t.insert(pos - len(kids), m)
+                elif op == "extend":
+                    t.extend([m, [MetadataNode()], (None,)])
+                elif op == "slice":
+                    kids[pos:pos] = [m]
+                elif op == "iadd":
+                    k2 = kids
+                    k2 += [m]
+                else:
+                    idx = [j for j, x in enumerate(kids) if isinstance(x, MetadataNode)]
+                    j = rng.choice(idx)
+                    if rng.random() < 0.5:
+                        del kids[j]
+                    else:
+                        kids.pop(j)
+            r = safe_call(apply)
+            if r[0] != "ok":
+                bad = ("an operation that only adds / removes a metadata node raised", r, None)
+                break
+            got = safe_call(lambda: t.get_html_string(i, eol))
+            if got != want:
+                bad = ("after operations that only add / remove metadata nodes get_html_string differs from what it gave "
+                       "before them", got, want)
+                break
+            if step % 16 == 15 or step == n_ops - 1 or len(kids) in (16, 17, 18, 32, 33, 34, 64, 65, 66, 128, 129, 130, 256, 257, 258):
+                got = safe_call(lambda: t.render()["html"])
+                if got != want_r:
+                    bad = ("after operations that only add / remove metadata nodes render()['html'] differs "
+                           "from what it gave before them", got, want_r)
+                    break
+                m2 = trees.routes_disagree(t)
+                if m2:
+                    bad = ("after a history of metadata-only operations the ways of obtaining the markup disagree", m2[:600], None)
+                    break
+        if bad:
+            case["children_now"] = len(kids)
+            ctx.violation("histories: " + bad[0], case, {"impl_output": bad[1], "expected": bad[2]})
+
+
+def api_build(ctx: Ctx) -> None:
+    """a tag built through the public constructors (tag functions, top-level re-exports, Tag, nested
+    list arguments, consolidate_attrs, another tag's .attrs) from children with and without
+    metadata nodes renders alike"""
+    rng = ctx.rng
+    top = ["div", "span", "p", "pre", "br", "hr", "img", "a", "code", "em", "strong", "h1"]
+    for case_no in range(ctx.budget(350, 5000)):
+        big = rng.random() < 0.06
+        nk = rng.choice(SIZES) if big else rng.choice([0, 1, 2, 3, 4, 6])
+        kids = [trees.rand_child(rng, 0 if big else 1, leaves="TTHRMMMD", names="bivs", maxkids=3) for _ in range(nk)]
+        if big and rng.random() < 0.6:
+            # almost only metadata: at most one visible child, placed last
+            vis = [k for k in kids if k[0] != "M"][:rng.choice([0, 1])]
+            kids = [k if k[0] == "M" else ("M", None) for k in kids] + vis
+        if not any(k[0] == "M" for k in kids):
+            kids.insert(rng.randrange(0, len(kids) + 1), ("M", None))
+        form = rng.choice(["tags", "toplevel", "Tag", "nested", "nested", "consolidate", "other-attrs", "none-mixed"])
+        name = rng.choice(top) if form == "toplevel" else rng.choice(top + ["script", "style", "title", "meta", "head", "ul"])
+        depth = rng.choice([1, 2, 3, 8, 17, 33, 70]) if form == "nested" else 0
+        post = rng.choice(["", "", "add_class", "add_style", "both"])
+        i, eol = rng.choice(LAYOUTS[:6])
+        case = {"form": form, "name": name, "children": kids, "nesting": depth, "then": post, "indent": i, "eol": eol}
+        ctx.count(("api", case), True, f"public construction: {form}")
+        cuts = sorted([rng.random(), rng.random()])
+
+        def construct(ks):
+            live = [trees.mk_child_text(k[1]) if k[0] == "T" else build(k) for k in ks]
+            if form == "tags":
+                t = getattr(htmltools.tags, name)(*live, id="i")
+            elif form == "toplevel":
+                t = getattr(htmltools, name)(*live, {"class": "c"})
+            elif form == "Tag":
+                t = Tag(name, {"data-a": "1"}, *live, {"data-b": HTML("<2>")}, _add_ws=len(name) % 2 == 0)
+            elif form == "nested":
+                # split into 3 arguments, each nested `depth` levels deep
+                cut = [int(f * (len(live) + 1)) for f in cuts]
+                parts = [live[:cut[0]], live[cut[0]:cut[1]], live[cut[1]:]]
+                args = []
+                for part in parts:
+                    arg = part
+                    for lvl in range(depth):
+                        sh = (lvl + len(part)) % 3
+                        arg = [arg] if sh == 0 else (None, arg) if sh == 1 else TagList(arg)
+                    args.append(arg)
+                t = Tag(name, *args)
+            elif form == "consolidate":
+                attrs, ch = htmltools.consolidate_attrs({"class": HTML("a&b")}, *live, {"style": "top:0"}, class_="k", id="i")
+                t = Tag(name, attrs, *ch)
+            elif form == "other-attrs":
+                other = htmltools.div("zz", MetadataNode(), class_="o", data_y="1").add_class("first", prepend=True)
+                t = Tag(name, other.attrs, *live, other.attrs)
+            else:
+                t = Tag(name, None, *live[:1], None, [None, live[1:], None])
+            if post in ("add_class", "both"):
+                t.add_class("x y", prepend=True).add_class("z")
+            if post in ("add_style", "both"):
+                t.add_style("color:red;", prepend=True)
+            return t
+        a = safe_call(lambda: construct(kids))
+        b = safe_call(lambda: construct([strip(k) for k in kids if k[0] != "M"]))
+        if a[0] != "ok" or b[0] != "ok":
+            if a[0] != b[0]:
+                ctx.violation("api: construction through the public API fails only with / only without metadata nodes among "
+                              "the children", case, {"impl_output": a, "expected": b})
+            continue
+        m = compare_frag(a[1], b[1], i, eol, True, False)
+        if m:
+            ctx.violation("api: a tag built through the public API renders differently when metadata nodes are among its "
+                          "children, through " + m[0], case, {"route": m[0], "impl_output": m[1], "expected": m[2]})
+
+
+def list_ops(ctx: Ctx) -> None:
+    """TagList + x, x + TagList, TagList += x, append(a, b, ...), extend(nested): the visible result is
+    that of the same operation without the metadata nodes (every layout argument of the list renderer)"""
+    rng = ctx.rng
+    for case_no in range(ctx.budget(350, 5000)):
+        n = rng.choice([0, 1, 2, 3])
+        base = [trees.rand_child(rng, 1, leaves="TTHRMD", names="biv", maxkids=2) for _ in range(n)]
+        nb = rng.choice(SIZES) if rng.random() < 0.05 else rng.choice([1, 2, 3])
+        batch = [trees.rand_child(rng, 0, leaves="TMMMD", names="bi") if nb > 6 else
+                 trees.rand_child(rng, 1, leaves="THMMD", names="biv", maxkids=2) for _ in range(nb)]
+        if not any(k[0] == "M" for k in batch + base):
+            batch.insert(rng.randrange(0, len(batch) + 1), ("M", None))
+        op = rng.choice(["add", "radd", "iadd", "append-many", "extend-nested", "ctor", "add-taglist", "radd-str"])
+        shape = rng.choice(["list", "tuple", "taglist"])
+        i, eol = rng.choice(LAYOUTS)
+        aw = rng.random() < 0.5
+        case = {"op": op, "shape": shape, "base": base, "batch": batch, "indent": i, "eol": eol, "add_ws": aw}
+        ctx.count(("listop", case), True, f"TagList operation {op}")
+
+        def perform(bs, bt):
+            lb = [trees.mk_child_text(k[1]) if k[0] == "T" else build(k) for k in bs]
+            lt = [trees.mk_child_text(k[1]) if k[0] == "T" else build(k) for k in bt]
+            sh = lt if shape == "list" else tuple(lt) if shape == "tuple" else TagList(*lt)
+            tl = TagList(*lb)
+            if op == "add":
+                res = tl + sh
+            elif op == "add-taglist":
+                res = tl + TagList(*lt) + [MetadataNode()] + TagList()
+            elif op == "radd":
+                res = sh + tl
+            elif op == "radd-str":
+                res = "lead<" + (tl + sh)
+            elif op == "iadd":
+                res = tl
+                res += sh
+            elif op == "append-many":
+                res = tl
+                res.append(*lt) if lt else None
+            elif op == "extend-nested":
+                res = tl
+                res.extend([sh, None, [[]]])
+            else:
+                res = TagList(tl, sh, None, TagList(TagList()))
+            return res
+        a = safe_call(lambda: perform(base, batch))
+        b = safe_call(lambda: perform([strip(k) for k in base if k[0] != "M"], [strip(k) for k in batch if k[0] != "M"]))
+        if a[0] != "ok" or b[0] != "ok":
+            if a[0] != b[0]:
+                ctx.violation("list operators: the operation fails only with / only without metadata nodes", case,
+                              {"impl_output": a, "expected": b})
+            continue
+        if not isinstance(a[1], TagList):
+            ctx.violation("list operators: the result is not a TagList", case, {"impl_output": type(a[1]).__name__})
+            continue
+        m = compare_frag(a[1], b[1], i, eol, aw, False)
+        if m:
+            ctx.violation("list operators: the result of a TagList operation renders differently when metadata nodes are "
+                          "among the operands, through " + m[0], case,
+                          {"route": m[0], "impl_output": m[1], "expected": m[2]})
+
+
+def jsx_meta_only(d, in_jsx: bool = False) -> bool:
+    """does the tree hold, inside a JSX component (the component itself, tags among its children or
+    given as props), an element whose child list is non-empty but consists of metadata nodes only?"""
+    k = d[0]
+    if k == "G":
+        kids = d[4]
+        if in_jsx and kids and all(x[0] == "M" for x in kids):
+            return True
+        return any(jsx_meta_only(x, in_jsx) for x in kids)
+    if k == "J":
+        kids = d[3]
+        if kids and all(x[0] == "M" for x in kids):
+            return True
+        return any(jsx_meta_only(x, True) for x in kids) or \
+            any(jsx_meta_only(v, True) for _, v in d[2] if isinstance(v, (list, tuple)) and v and v[0] in ("G", "J"))
+    return False
+
+
+def jsx_fix(d, in_jsx: bool = False):
+    """give every element that jsx_meta_only() points at one visible text child (after the metadata)"""
+    k = d[0]
+    if k == "G":
+        kids = [jsx_fix(x, in_jsx) for x in d[4]]
+        if in_jsx and kids and all(x[0] == "M" for x in kids):
+            kids.append(("T", "v"))
+        return ("G", d[1], d[2], d[3], kids)
+    if k == "J":
+        kids = [jsx_fix(x, True) for x in d[3]]
+        if kids and all(x[0] == "M" for x in kids):
+            kids.append(("T", "v"))
+        return ("J", d[1], [(key, jsx_fix(v, True) if isinstance(v, (list, tuple)) and v and v[0] in ("G", "J") else v)
+                            for key, v in d[2]], kids)
+    return d
+
+
+def components(ctx: Ctx) -> None:
+    """JSX components: metadata nodes among a component's children, inside ordinary tags inside it and
+    inside tags given as props; the component inside ordinary tags; everything optionally displayed
+    inside a with-block.  Only the inserted nodes differ (a component brings dependencies of its own)."""
+    import sys
+    rng = ctx.rng
+    rec = _recorded(ctx, "components:")
+    for case_no in range(ctx.budget(220, 3000)):
+        st = {"n": 0, "k": 0, "kept": []}
+
+        def jsx(depth):
+            big = rng.random() < 0.06
+            nk = rng.choice([15, 16, 17, 33, 65]) if big else rng.choice([0, 1, 2, 3])
+            kids = []
+            for _ in range(nk):
+                r = rng.random()
+                if big and r < 0.9:
+                    kids.append(("M", {"name": "x"}))
+                elif depth > 0 and r < 0.15:
+                    kids.append(jsx(depth - 1))
+                else:
+                    kids.append(trees.rand_child(rng, 1, leaves="TTMMD", names="bi", maxkids=3))
+            props = []
+            if rng.random() < 0.4:
+                props.append(("title", rng.choice(["t", 'q"uote', "<b>"])))
+            if rng.random() < 0.3:
+                props.append(("icon", trees.rand_tree(rng, 1, leaves="TMM", names="bi", maxkids=2)))
+            return ("J", rng.choice(["Comp", "My.Widget"]), props, kids)
+
+        def lab(d):
+            if d[0] == "J":
+                return ("J", d[1], [(k, lab(v) if isinstance(v, tuple) and v and v[0] in ("G", "J") else v) for k, v in d[2]],
+                        [lab(x) for x in d[3]])
+            if d[0] == "G":
+                return ("G", d[1], d[2], d[3], [lab(x) for x in d[4]])
+            if d[0] == "M":
+                r = rng.random()
+                if r < 0.3:
+                    return ("M", None)
+                if r < 0.4:
+                    return ("M", ("sub",))
+                st["n"] += 1
+                return ("M", ins_payload(rng, st["n"]))
+            return d
+        outer_kids = [trees.rand_child(rng, 1, leaves="TTHMMD", names="bi", maxkids=2) for _ in range(rng.choice([0, 1, 2]))]
+        outer_kids.insert(rng.randrange(0, len(outer_kids) + 1), jsx(1))
+        if rng.random() < 0.3:
+            outer_kids.insert(rng.randrange(0, len(outer_kids) + 1), jsx(0))
+        name, ws = rng.choice([("div", True), ("span", False), ("section", True), ("li", False)])
+        d = lab(("G", name, ws, [], outer_kids))
+        # EXCLUDED INPUT CLASS (reported as a deviation of the unchanged library, not hidden): inside a JSX
+        # component, an element (the component, a tag among its children or in its props) whose children are
+        # metadata nodes ONLY is written as `React.createElement(<nl> 'span', {}<nl> )` instead of the one-line
+        # `React.createElement('span')` it has without them (_jsx.py _render_react_js tests len(x.children) on the
+        # unfiltered list).  Such elements get one visible text child here; a recorded case of that class is not judged.
+        d = jsx_fix(d)
+        c = {"tree": d, "with_block": rng.random() < 0.5, "mode": rng.choice(["invisible", "invisible", "json"]),
+             "indent": rng.choice([0, 1, 3]), "eol": rng.choice(["\n", "\r\n", ""]),
+             "lib_prefix": rng.choice(["lib", None, "x/y"]), "include_version": rng.random() < 0.5}
+        if rec is not None:
+            c = rec
+            d = c["tree"]
+        if jsx_meta_only(d):
+            ctx.count(("jsx-excluded", c), False, "excluded: metadata-only element inside a JSX component (reported deviation)")
+            if rec is not None:
+                break
+            continue
+        ctx.count(("jsx", c), True, "JSX components with metadata" + (" in a with-block" if c["with_block"] else ""))
+
+        def mk(desc):
+            if not c["with_block"]:
+                return build7(desc)
+            live = [trees.mk_child_text(k[1]) if k[0] == "T" else build7(k) for k in desc[4]]
+            t = Tag(desc[1], _add_ws=desc[2])
+            old = sys.displayhook
+            try:
+                with_tag_display(t, *live)
+            finally:
+                sys.displayhook = old
+            return t
+        i, eol, lp, iv = c["indent"], c["eol"], c["lib_prefix"], c["include_version"]
+        with dep_mode(c["mode"]):
+            a, b = safe_call(lambda: mk(d)), safe_call(lambda: mk(strip_ins(d)))
+            if a[0] != "ok" or b[0] != "ok":
+                if a[0] != b[0]:
+                    ctx.violation("components: building a tree with JSX components fails only with / only without the inserted "
+                                  "metadata nodes", c, {"impl_output": a, "expected": b})
+                if rec is not None:
+                    break
+                continue
+            x1, x2 = a[1], b[1]
+            obs = [("render()['html']", lambda x: x.render()["html"]),
+                   ("tagify().get_html_string(i, eol)", lambda x: x.tagify().get_html_string(i, eol)),
+                   ("copy.copy(x).tagify().get_html_string(i, eol)", lambda x: __import__("copy").copy(x).tagify().get_html_string(i, eol)),
+                   ("TagList(x, x).tagify().get_html_string(i, eol, add_ws=False)",
+                    lambda x: TagList(x, x).tagify().get_html_string(i, eol, add_ws=False))]
+            failed = False
+            for n, f in obs:
+                got, want = safe_call(lambda: f(x1)), safe_call(lambda: f(x2))
+                if got != want:
+                    ctx.violation("components: the markup of a tree with JSX components changes when metadata nodes are inserted "
+                                  "(among a component's children, inside tags inside it or given as props, next to it), through " + n,
+                                  c, {"route": n, "impl_output": got, "expected": want})
+                    failed = True
+                    break
+            if not failed:
+                s1, s2 = safe_call(lambda: str(x1)), safe_call(lambda: str(x2))
+                if s1[0] == "ok" and s2[0] == "ok":
+                    if c["mode"] == "json":
+                        ok = json_same(s1[1], unjson(s2[1])[0])
+                    else:
+                        ok = s1 == s2
+                    if not ok:
+                        ctx.violation("components: str() of a tree with JSX components changes when metadata nodes are inserted",
+                                      c, {"impl_output": s1, "expected": s2})
+                        failed = True
+                elif s1 != s2:
+                    ctx.violation("components: str() fails only with / only without the inserted metadata nodes", c,
+                                  {"impl_output": s1, "expected": s2})
+                    failed = True
+            if not failed:
+                r1 = safe_call(lambda: HTMLDocument(x1, lang="en").render(lib_prefix=lp, include_version=iv))
+                r2 = safe_call(lambda: HTMLDocument(x2, lang="en").render(lib_prefix=lp, include_version=iv))
+                if r1[0] == "ok" and r2[0] == "ok":
+                    msg = doc_judge(r1[1]["html"], dep_names(r1[1]["dependencies"]), r2[1]["html"], dep_names(r2[1]["dependencies"]))
+                    if msg:
+                        ctx.violation("components: a document holding JSX components shows a trace of inserted metadata nodes: " + msg,
+                                      c, {"impl_output": r1[1]["html"], "expected": r2[1]["html"]})
+                elif r1[0] != r2[0]:
+                    ctx.violation("components: HTMLDocument.render fails only with / only without the inserted metadata nodes", c,
+                                  {"impl_output": r1, "expected": r2})
+        if rec is not None:
+            break
 
 
 def replay(ctx: Ctx, path: str) -> None:
